@@ -1003,9 +1003,15 @@ impl<const V: usize> Exec<V> {
                 }
                 self.prepare_probes();
                 self.pending_exhaustive = *force && *exhaustive;
+                let pauses_before = g().resume_calls.load(Ordering::SeqCst);
                 let ran = self.mmtk.handle_user_collection_request(mutator_tls(m), *force, *exhaustive);
                 if ran {
                     cnt!(self, "gc_requested");
+                    // C14: an accepted request has been served (the call blocks until the collection has ended)
+                    if g().resume_calls.load(Ordering::SeqCst) == pauses_before {
+                        self.violate("C14", "request-not-served", "handle_user_collection_request returned true but no collection completed".to_string());
+                        return;
+                    }
                 }
                 self.after_possible_gc();
                 self.pending_exhaustive = false;
@@ -1061,6 +1067,24 @@ impl<const V: usize> Exec<V> {
                 self.destroy(m);
             }
             Op::ForkCycle => self.fork_cycle(),
+            Op::ForkDuringGc { m } => {
+                if self.is_nogc {
+                    return;
+                }
+                let before = g().fork_requested_in_gc.load(Ordering::SeqCst);
+                g().fork_in_next_gc.store(true, Ordering::SeqCst);
+                self.exec_op(&Op::Gc { m: *m, force: true, exhaustive: false });
+                if !self.verdict.ok {
+                    return;
+                }
+                if g().fork_requested_in_gc.load(Ordering::SeqCst) == before {
+                    // no pause happened (the request was ignored): nothing was asked of the workers
+                    g().fork_in_next_gc.store(false, Ordering::SeqCst);
+                    return;
+                }
+                super::probes::fork_join_and_respawn(self);
+                cnt!(self, "fork_during_gc");
+            }
             Op::Probe { kind, seed } => self.probe(*kind, *seed),
             Op::Chain { m, root, n, extra, sem } => {
                 let m = self.pick_m(*m);
